@@ -267,7 +267,9 @@ mod proofs {
             }
         )*};
     }
-    from_long! { c15_from_9 = <9>, 11; c15_from_17 = <17>, 19; c15_from_33 = <33>, 35; }
+    from_long! { c15_from_9 = <9>, 11; c15_from_17 = <17>, 19; }
+    #[cfg(feature = "thorough")]
+    from_long! { c15_t_from_33 = <33>, 35; c15_t_from_65 = <65>, 67; }
 
     #[kani::proof]
     fn c15_individual_generator() {
